@@ -176,17 +176,22 @@ static void op_ebm(int argc, char **argv) {
 	fputc('\n', OUT);
 }
 
-/* ebs <variant> <P> <k> <Q> <m> : k*P + m*Q ; variant gen uses the generator for P */
+/* ebs <variant>[.p|.q] <P> <k> <Q> <m> : k*P + m*Q ; variant gen uses the generator for P ; suffix .p / .q : the result object is the first /
+   second point operand (every eb_mul_sim_* documents its result as an independent parameter, so aliasing must not change the value) */
 static void op_ebs(int argc, char **argv) {
 	if (argc < 6) { fprintf(OUT, "bad-args\n"); return; }
-	const char *v = argv[1];
+	char v[32]; int al = 0;
+	snprintf(v, sizeof(v), "%s", argv[1]);
+	char *dot = strchr(v, '.');
+	if (dot) { al = dot[1] == 'p' ? 1 : (dot[1] == 'q' ? 2 : 0); *dot = 0; }
 	int caught = 0;
-	eb_t p, q, c; bn_t k, m; raw_t r;
+	eb_t p, q, c0; bn_t k, m; raw_t r;
 	bn_null(k); bn_new(k); bn_null(m); bn_new(m);
-	eb_set_infty(c);
+	eb_set_infty(c0);
 	eb_tok(p, argv[2]); raw_parse(&r, argv[3]); raw_to_bn(k, &r);
 	eb_tok(q, argv[4]); raw_parse(&r, argv[5]); raw_to_bn(m, &r);
 	if (take_err()) { fprintf(OUT, "bad-token\n"); return; }
+	eb_st *c = al == 1 ? p : (al == 2 ? q : c0);
 	RLC_TRY {
 		if (!strcmp(v, "sim")) eb_mul_sim(c, p, k, q, m);
 		else if (!strcmp(v, "basic")) eb_mul_sim_basic(c, p, k, q, m);
